@@ -9,12 +9,23 @@ SEARCH_N = {'quick': 3000, 'thorough': 20000}
 RULE = ('fields NY 1..4 x NX 2..7; "exact" stream: integer grids times 2^ue (binary32-exact, evaluated in Coq against '
         'Model/Arl.v: bytes, unpacked values, checksum, exponent) — random walks, constant fields, largest difference '
         'at 2^k, 2^k-1, and in (127q,128q]; "float" stream: arbitrary binary32 fields 1e-30..1e30 checked against the '
-        'exact-rational statement in Python. Non-trivial = at least one non-zero reconstruction error or a non-127 code.')
+        'exact-rational statement in Python. Non-trivial = at least one non-zero reconstruction error or a non-127 code. '
+        'File layer (3.5% of the cases, each ~2 s of Coq evaluation): ARL files of 1..3 periods, a surface level with its own 1..3 variables and 0..3 upper '
+        'levels with 1..3 variables (same list, or ragged), NX 2..6 and NY >= 2 chosen so that nx*ny just covers LENH (the format needs nx*ny >= LENH >= 124, '
+        'so 2..5 x 2..5 grids do not exist in this format; padding 0..a few bytes, or >= 108 in the bigpad stream), blank or NUL padding, written by a Python '
+        'reference encoder (compared byte for byte with the Coq encoder, decoded by the Coq decoder) and read by arlpackedbit: variable list, level list, times '
+        'and every unpacked field compared exactly with the Coq model of the reader and with the ideal view of the content; separate streams: two columns / two rows, '
+        'key shared by surface and upper level (region 6), writearlpackedbit on an in-memory file (region 4). Corpus: the witnesses of the two repaired reader defects.')
 TRUSTED = ['numpy binary32 elementwise arithmetic is exact on the exact stream (checked per case: unpacked values integral in the unit)',
            'libm logf used for NEXP: model uses floor(log2 RMAX)+1 and accepts NEXP one lower at exact powers of two',
-           'modelled, not verified: numpy int32->uint8 store wraps mod 256; np.cumsum sums sequentially']
+           'modelled, not verified: numpy int32->uint8 store wraps mod 256; np.cumsum sums sequentially',
+           'file layer: Python float()/int() parsing of label text (VAR1 text -> value is supplied by the harness as a table; level heights are compared as text), '
+           'numpy memmap structured-dtype offsets (modelled by lib_offset and tied to the translated dtype sizes), strptime century pivot (times compared as yy mm dd hh)',
+           'harness/gen_arl.py normalisations in front of translate/py2coq.py (list-of-pairs dtype literals, dict field reads as parameters, INT()/np.float32() casts as identity)']
 ASSUMPTIONS = ['the Z model equals the binary32 computation only where every intermediate is representable (exact stream); '
-               'the float stream is decided by the Python rational oracle, not by the model']
+               'the float stream is decided by the Python rational oracle, not by the model',
+               'file layer: lat-lon grids only (GRIDX = 0; projected grids need pyproj, absent here), distinct level heights, one single-record index header per period (LENH <= nx*ny), '
+               'identical index layout and keys in every period, 2 <= nx, ny <= 999 (a single row or column still raises IndexError in the cell-edge code: np.diff(x)[0]; not generated)']
 
 
 def gen(rng, n, tier):
@@ -206,17 +217,26 @@ def shrink(case):
         for k in range(len(rows[0])):
             yield dict(case, rows=[r[:k] + r[k + 1:] for r in rows])
 
-LEVEL_TEXT = ('Theorems (Props/C20.v, all closed under the global context) over an exact Gallina model of pack2d/unpack: for every '
+LEVEL_TEXT = ('Theorems (Props/C20.v, all closed under the global context). Pack layer, exact Gallina model of pack2d/unpack: for every '
               'field shape (>=2 columns), every quantum and every field whose scan-order neighbour differences are <= 127 quanta the round '
               'trip is within half a quantum, no code leaves 0..255, the decoder reproduces the encoder\'s running values and the first '
               'element is exact (C20_error_bound_half, C20_spec_partial, C20_first_exact, C20_decoder_mirrors_encoder); the full statement '
               '(differences < 128 quanta, which is all the exponent rule guarantees: C20_exponent_covers) is refuted with vm_compute '
-              'witnesses (C20_error_bound_q_refuted, C20_no_wraparound_refuted) that replay on the library = known findings. '
-              'Tie H: library pack2d/unpack vs model on binary32-exact fields, bit-for-bit (bytes, values, checksum, exponent).')
-LEVEL_NOTE = ('Trusted: Coq kernel + vm_compute; the correspondence harness; numpy binary32 arithmetic exact on the generated exact stream '
-              '(verified per case); logf only through the exponent check. The arbitrary-float stream is decided by a rational oracle in Python, '
-              'not by the model. ARL file layout (index record, LENH) not yet modelled.')
-TECHNIQUE = 'Coq proof (induction over the scan, lia/nia) + vm_compute refutation witnesses + differential correspondence'
+              'witnesses (C20_error_bound_q_refuted, C20_no_wraparound_refuted) = known findings, region 1. File layer (Model/ArlFile.v, describing the reader '
+              'after the two repairs fixes/C20-arl-index-table-length.patch and fixes/C20-arl-two-column-edges.patch): '
+              'full strength: reference decoder inverts reference encoder for every well-formed content (C20_file_dec_enc); the bytes at the spec '
+              'offset of (time, level, variable) are that record and the library\'s dtype arithmetic computes that offset (C20_file_record_at_offset, '
+              'C20_file_lib_offset); tie T over Gen/Arl.v (C20_gen_sizes, C20_gen_label_fields, C20_gen_lenh, C20_gen_record_length, C20_gen_table_widths). '
+              '_partial: the reader model returns the ideal view (variable list, level list, times, every record) on the encoding of every well-formed uniform content '
+              'with >= 2x2 cells and no key shared between surface and upper levels (C20_file_reader_partial); fields of a spec-encoded file are within one quantum '
+              'when inside the proved range (C20_file_field_bound_partial); the blank-terminated table parser returns the table (C20_file_readvardef_partial). '
+              '_refuted (vm_compute witnesses = known findings): key shared by surface and upper level (C20_file_shared_key_refuted, region 6); writer raises for every '
+              'input (C20_file_writer_raises_refuted, region 4). '
+              'Ties: H (library pack2d/unpack, arlpackedbit, writearlpackedbit vs models, bit-for-bit on binary32-exact data) and T (19 anchors of _arl.py).')
+LEVEL_NOTE = ('Trusted: Coq kernel + vm_compute; the correspondence harness incl. its Python reference encoder (checked per case against the Coq encoder); '
+              'numpy binary32 arithmetic exact on the generated exact stream (verified per case); logf only through the exponent check; Python float() of the '
+              'E14.7 label text; translate/py2coq.py and the normalisations in harness/gen_arl.py. The arbitrary-float stream is decided by a rational oracle in Python.')
+TECHNIQUE = 'Coq proof (induction over the scan / over the record structure, lia/nia, finite sweeps for the I2/I3/I4 text fields) + vm_compute refutation witnesses + translated layout arithmetic + differential correspondence'
 
 
 # =============================================================================== file layer
@@ -224,13 +244,13 @@ TECHNIQUE = 'Coq proof (induction over the scan, lia/nia) + vm_compute refutatio
 # Per period: INDX record = label + 108-byte fixed header + level/variable table + padding,
 # then one record per level per variable.  The reference encoder below is written from that
 # description; coq/Model/ArlFile.v `enc` is the same thing in Gallina and is compared per case.
-FILE_FRACTION = {'quick': 0.02, 'thorough': 0.01, 'search': 0.05}
+FILE_FRACTION = {'quick': 0.035, 'thorough': 0.015, 'search': 0.04}
 FILE_UE = -7            # unit of the integer view of file cases: 2^-7 (NEXP >= 1, so h = 2^(NEXP-1) >= 1)
 SFC_KEYS = ['PRSS', 'T02M', 'U10M', 'V10M', 'SHGT', 'TPP1', 'P   ', 'MSLP']
 LAY_KEYS = ['TEMP', 'UWND', 'VWND', 'WWND', 'HGTS', 'RELH', 'Q1  ', 'SPHU']
 SFC_TEXTS = ['   0.0', '    0.', '1.0000', '   1.0', '0.0000']
 LAY_TEXTS = ['1000.0', ' 925.0', ' 850.0', ' 700.5', '  500.', '0.9980', '.99500', '0.9000', ' .8500', '  20.0', '  10.5']
-FILE_KINDS = ['file-ok'] * 9 + ['file-nulpad'] * 2 + ['file-ragged'] * 3 + ['file-shortpad'] * 2 + ['file-narrow'] + ['file-dupkey'] + ['write'] * 2
+FILE_KINDS = ['file-ok'] * 8 + ['file-nulpad'] * 2 + ['file-ragged'] * 3 + ['file-bigpad'] * 2 + ['file-narrow'] * 2 + ['file-dupkey'] + ['write'] * 2
 
 
 def _lenh(levels):
@@ -263,21 +283,15 @@ def gen_file(rng, tier):
         if len(set(levels[0]['keys'])) != len(levels[0]['keys']):
             levels[0]['keys'] = [levels[1]['keys'][0]]
     lenh = _lenh(levels)
+    # the format needs nx*ny >= LENH (single-record index header); padding 0.. a few bytes, or >= 108 (bigpad)
+    need = lenh + (108 if kind == 'file-bigpad' else 0)
     if kind == 'file-narrow':
-        nx, ny = 2, (lenh + 108 + 1) // 2 + rng.randint(0, 2)
-        if rng.random() < 0.4:
+        nx, ny = 2, -(-need // 2) + rng.choice([0, 0, 1])
+        if rng.random() < 0.5:
             nx, ny = ny, nx
-    elif kind == 'file-shortpad':
-        nx = rng.randint(3, 6)
-        target = rng.randint(lenh + 8, lenh + 107)
-        ny = max(3, target // nx)
-        while nx * ny < lenh + 8:
-            ny += 1
-        if nx * ny >= lenh + 108:      # cannot happen for nx <= 6, kept as a guard
-            ny -= 1
     else:
-        nx = rng.randint(3, 6)
-        ny = -(-(lenh + 108) // nx) + rng.choice([0, 0, 1, 3])
+        nx = rng.randint(2, 6)
+        ny = max(2, -(-need // nx) + rng.choice([0, 0, 0, 1, 3]))
     d0 = datetime.datetime(rng.choice([1995, 1999, 2000, 2017, 2068, 1969]), rng.randint(1, 12), rng.randint(1, 28), rng.choice([0, 3, 6, 12, 18, 21, 23]))
     step = rng.choice([1, 3, 6, 12, 24, 30])
     ff = rng.choice([0, 0, 3, 12])
@@ -550,10 +564,7 @@ def coq_term_write(case, obs):
 def file_region(case):
     if case['kind'].startswith('write'):
         return 4
-    lenh = _lenh(case['levels'])
-    if lenh + 108 > case['nx'] * case['ny']:
-        return 3
-    if case['nx'] < 3 or case['ny'] < 3:
+    if case['nx'] < 2 or case['ny'] < 2:
         return 5
     if set(case['levels'][0]['keys']) & set(k for l in case['levels'][1:] for k in l['keys']):
         return 6
